@@ -90,6 +90,12 @@ add("full", "arbiter", 2, 1, "read", "thorough", greedy=True)
 add("lite", "arbiter", 2, 1, "write", "thorough", greedy=True)
 
 
+# masters of different address widths on the shared bus / crossbar (the narrow master first): the interconnect carries the widest address
+for _proto, _kind, _mode, _tier in (("lite", "shared", "write", "quick"), ("lite", "shared", "read", "quick"), ("lite", "crossbar", "read", "quick"),
+                                    ("full", "shared", "read", "quick"), ("full", "shared", "write", "thorough"), ("full", "crossbar", "write", "thorough")):
+    V[f"{_proto}.{_kind}(2x3,{_mode},adr widths 7/8)"] = (_tier, dict(proto=_proto, kind=_kind, nm=2, ns=3, mode=_mode, adr_widths=(7, 8)))
+
+
 def mk(name, table=V):
     kw = table[name][1]
     return lambda: AxiIcHarness(name, **kw)
